@@ -16,9 +16,11 @@ SPEC = dict(
     rule="a history of ingestion operations (span arrivals local/peer with 1-3 ns between them, ticks of one SendTicker "
          "period, sendTraces steps, direct EnqueueEvent calls, stale-batch ticks, at most one worker made busy) is generated "
          "once for 1-3 workers, 2-6 traces (65 % kept by the sampler), 1-3 destinations, MaxBatchSize 1/2/3/5, and then cut at "
-         "EVERY prefix (the crash points); each case = one prefix + a shutdown sequence (66 % Stop, transmission Stop, goroutine "
-         "profile; the rest: data arriving after the stops, transmission stopped first, double stops, clocks running between "
-         "the stops, Agent.Stop). Runs on a real InMemCollector + real DirectTransmission + in-process fake Honeycomb. "
+         "EVERY prefix (the crash points); each case = one prefix + a shutdown sequence (52 % Stop, transmission Stop, goroutine "
+         "profile; 16 % Stop landing INSIDE a decision pass: 0-4 more ticks, then a tick during which the first worker that "
+         "reaches the hand-over of a kept trace is parked right before `i.tracesToSend <- trace` (hook in the Metrics the "
+         "collector is given), Stop is started and the worker released once Stop has closed the input channels; the rest: data "
+         "arriving after the stops, transmission stopped first, double stops, clocks running between the stops, Agent.Stop). Runs on a real InMemCollector + real DirectTransmission + in-process fake Honeycomb. "
          "Half of the histories are AGENT histories instead: the agent's two background loops (started as connect() does) with a "
          "scripted OpAMP client (0-4 SendCustomMessage outcomes: accepted / pending, channel open or already closed, failure; "
          "then failure), 3-10 events of usage recorded / usage ticker fires / client reports the message sent, cut at every "
@@ -30,6 +32,8 @@ SPEC = dict(
         "clockwork.FakeClock (two instances: collector, transmission)",
         "harness accessors zz_verif_shutdown.go (collect, transmit, agent): park workers with the code's pause channel, "
         "gate in front of sendTraces (removed before Stop), hook on worker 0's decision cache Stop, TryRLock probe of batchMutex",
+        "hookMetrics (NullMetrics + park at Histogram('trace_kept_sample_rate'); a pass that is panicking is detected from "
+        "runtime.gopanic on the stack of sendExpiredTracesInCache's deferred Histogram call and its goroutine is held there, so the process survives)",
         "recording wrapper around DirectTransmission (serialises EnqueueEvent calls, stalls the sendTraces goroutine for 5 ms during Stop)",
         "net/http + httptest (fake Honeycomb), tinylib/msgp (decoding the batches)",
         "the sampler: DeterministicSampler rate 1 (keep) / RulesBasedSampler 'drop everything' (drop), chosen per trace by the case header",
@@ -44,7 +48,10 @@ SPEC = dict(
              "at Stop every accepted span is forwarded iff kept, everything waiting in tracesToSend is forwarded before Stop "
              "returns, full accounting of every accepted span after Stop, DirectTransmission.Stop dispatches every accepted event "
              "and nothing stays pending, enqueue after Stop = panic (nil map, batchMutex left locked) then block for ever, AddSpan "
-             "after Stop = panic; the full statement is proved for the proposed repair (fixed = true); both agent loops (healthCheck, reportUsagePeriodically with "
+             "after Stop = panic; Stop's coded order (close inputs, wait workers, close tracesToSend, wait sender) admits no send on the closed "
+             "channel for any interleaving with worker passes (no_send_after_close), refuted for the order that closes tracesToSend "
+             "before waiting (a worker between keep decision and hand-over panics; observed through a panic-time hook, signature "
+             "C36:stop-panics:send-on-closed-channel); the full statement is proved for the proposed repair (fixed = true); both agent loops (healthCheck, reportUsagePeriodically with "
              "sendUsageReport's pending / completion waits) reach `exited` within 6 of their own steps after cancel from every state, "
              "for every client outcome script and select choice (agent_goroutines_exit_after_stop), observed gone on the real "
              "goroutines after Agent.Stop at every prefix of scripted histories; a loop left behind is a monitored violation. Model tied to collect.go, "
